@@ -270,8 +270,9 @@ def _c02() -> List[Obl]:
 
 def _c07() -> List[Obl]:
     out = (_verus_reader_unary("C07", lemmas=False) + _verus_bitreader_unary("C07", lemmas=False)
-           + _verus_reader_bits("C07", ["bit_pos", "set_bit_pos", "read_bits", "peek_bits", "skip_bits_after_peek"], lemmas=False))
-    out += _reader("C07", r"c07|advance|positioned|move|confirm: position", ["read_bits", "peek_bits", "skip_bits_after_peek", "read_unary.K2",
+           + _verus_reader_bits("C07", ["bit_pos", "set_bit_pos", "read_bits", "peek_bits", "refill", "skip_bits_after_peek"], lemmas=False))
+    # (a failed look-ahead must leave the position where it was: the clause is tagged c09 in the harness and belongs to C07 as well)
+    out += _reader("C07", r"c07|advance|positioned|move|confirm: position|leaves the reader unchanged", ["read_bits", "peek_bits", "skip_bits_after_peek", "read_unary.K2",
                                                           "skip_bits", "skip_bits.K2", "bit_pos", "set_bit_pos", "confirm"])
     # the seek contracts of the backends the readers are used with
     for w in ["u8", "u64"]:
@@ -936,6 +937,11 @@ def _c05_peek() -> List[Obl]:
                            tier="quick" if w in QUICK_R else "thorough", fns=[f"BufBitReader<{E},_<{w}>>::peek_bits (guaranteed width W::BITS)"]))
         out.append(Obl(id=f"c05.peek_width.{E}.unbuffered", prop="C05", engine="kani", target=f"obl_params::c05_peek_width_unbuffered_{el}",
                        fns=[f"BitReader<{E},_>::new"]))
+        # the unbuffered reader's look-ahead is what its table decoding indexes with
+        out.append(Obl(id=f"c05.peek_contract.{E}.unbuffered", prop="C05", engine="kani", target=f"obl_bitreader::{el}::c02_peek_bits", only=r"c02|c09",
+                       fns=[f"BitReader<{E},_>::peek_bits (guaranteed width 32)"]))
+        out.append(Obl(id=f"c05.skip_after_peek.{E}.unbuffered", prop="C05", engine="kani", target=f"obl_bitreader::{el}::c02_skips", only=r"c02|c09|c07",
+                       fns=[f"BitReader<{E},_>::skip_bits_after_peek"]))
     for h in ("reader_be_u16", "reader_le_u16"):
         for m in ("gamma", "delta", "zeta3"):
             out.append(Obl(id=f"c05.params.{h}.{m}", prop="C05", engine="kani", target=f"obl_params::c03_params_{h}_{m}", kind="complete",
